@@ -14,7 +14,7 @@ from mv import geom
 ALPHABET = ["C", "N", "O", "H"]
 # alternative alphabets with one-letter / two-letter symbols sharing the first letter (C/Cl, N/Na, S/Si, C/Co)
 ALPHABETS = [["C", "N", "O", "H"], ["C", "N", "O", "H"], ["C", "N", "O", "H"], ["C", "Cl", "N", "Na"], ["S", "Si", "C", "Co"]]
-ATOLS = [0.01, 0.05, 0.1, 0.3]
+ATOLS = [0.002, 0.01, 0.05, 0.1, 0.3]
 GRID = 64.0
 
 
@@ -249,7 +249,9 @@ def pose(draw, ppos, classes=None):
     o = o / np.linalg.norm(o)
     if cls == "flip":
         return geom.axis_angle_matrix(o, math.pi), cls
-    eps = 10.0 ** draw(st.floats(-9, -4))
+    # from numerically indistinguishable up to a third of a degree: for a pattern a few Angstrom long the tilt then
+    # moves the far atoms by more than a small tolerance, so treating the two directions as parallel is a visible error
+    eps = 10.0 ** draw(st.floats(-9, -2.2))
     small = geom.axis_angle_matrix(draw(unit_vector()), eps)
     if cls == "near-parallel":
         # also spin about the axis so that the orientation step has work to do
